@@ -61,6 +61,9 @@ def trackerAdd (tr : List Key) (k : Key) : Option (List Key) :=
 
 def panicSite : String := "loader.applyServiceExtends"
 
+/-- the model's own out-of-fuel marker (never produced when the fuel is `fuelFor`: `extends_terminates`) -/
+def fuelMark : String := "extends:fuel"
+
 /-- the `switch v := extends.(type)` of `applyServiceExtends`: (ref, file) -/
 def parseExtends : Val → Out (String × Option String)
   | .str r => .ok (r, none)
@@ -106,7 +109,7 @@ def resolveBase (E : Env) (name ref : String) (file : Option String) (services :
 
 /-- `applyServiceExtends`: the resolved service and the (possibly memoised) `services` map of the caller -/
 def applySvc (E : Env) : Nat → String → KVs → List Key → Out (Val × KVs)
-  | 0, _, _, _ => .panic "fuel"
+  | 0, _, _, _ => .panic fuelMark
   | fuel + 1, name, services, tr =>
     match lookup name services with
     | none => .ok (.null, services)
@@ -164,8 +167,12 @@ def allNames (E : Env) (S : KVs) : List String :=
 
 def allFiles (E : Env) : List String := E.mainFile :: E.fs.map Prod.fst
 
+/-- every key the tracker can ever hold -/
+def keyUniverse (E : Env) (S : KVs) : List Key :=
+  (allFiles E).flatMap fun f => (allNames E S).map fun n => (f, n)
+
 /-- enough fuel: the tracker holds distinct `(file, name)` pairs -/
-def fuelFor (E : Env) (S : KVs) : Nat := (allFiles E).length * (allNames E S).length + 1
+def fuelFor (E : Env) (S : KVs) : Nat := (keyUniverse E S).length + 1
 
 /-- `ApplyExtends` visiting the services in the order `order` (Go: random map order) -/
 def applyExtendsOrd (E : Env) (order : List String) (dict : KVs) : Out KVs :=
